@@ -239,8 +239,8 @@ class Select(SubCheck):
             return self._short(e, impl)
         reads, bridging, pref = shape["reads"], bool(shape["bridging"]), shape["pref"]
         R = len(reads)
-        if e.symbolic and getattr(self, "_nonterm", 0) >= 5:
-            # fail fast: this job has already produced five non-termination counter-examples (each costs the full step
+        if e.symbolic and getattr(self, "_nonterm", 0) >= 1:
+            # fail fast: this job has already produced a non-termination counter-example (each costs the full step
             # bound, symbolically and on replay); the remaining paths of the job are dropped, the job is red anyway
             e.assume(False)
         k = e.int("k", 1, 3)
